@@ -128,6 +128,42 @@ DC07 == Done =>
    IN  \A P \in Interior(G) :
          /\ \A p \in MRow(A, P) : p[2] # P => RLe(A[p], RZero)
          /\ RowSum(A, P) = Div(G, C)[P]
+\* C08: mirroring a grid along a non-radial axis (faces reflected, coefficient fields reflected, the velocity
+\* component along that axis negated) commutes with every reference operator
+MirrorAxes(g) == {a \in Axes(g) : ~IsRadial(g.cls, a)
+                                  /\ ~(g.cls = "SphericalGrid3D" /\ AxisLabels(g.cls)[a] = "theta")}
+Mirrored(g, a) == [g EXCEPT !.faces[a] =
+                     [i \in 1..Len(g.faces[a]) |->
+                        RSub(RAdd(Lo(g, a), Hi(g, a)), g.faces[a][Len(g.faces[a]) + 1 - i])]]
+\* the face of g that a face of the mirrored grid comes from
+PreFace(g, a, id) ==
+  LET b == id[1]  f == id[2]
+  IN  IF b = a THEN <<b, [f EXCEPT ![a] = NCells(g, a) - f[a]]>>
+      ELSE <<b, [f EXCEPT ![a] = NCells(g, a) + 1 - f[a]]>>
+MirrorFace(g, a, F, flip) ==
+  [id \in FaceIds(g) |-> IF flip /\ id[1] = a THEN RNeg(F[PreFace(g, a, id)]) ELSE F[PreFace(g, a, id)]]
+DC08 == Done =>
+   \A a \in MirrorAxes(G) :
+      LET gm == Mirrored(G, a)
+          tr == [kind |-> "mirror", axis |-> a]
+          Dm == MirrorFace(G, a, AbsField(C), FALSE)
+          um == MirrorFace(G, a, C, TRUE)
+          phi == TestField(G)
+      IN  /\ C08_Geometry(tr, G, gm)
+          /\ C08_Apply(tr, G, gm, DiffusionRows(G, AbsField(C)), DiffusionRows(gm, Dm), phi)
+          /\ C08_Apply(tr, G, gm, CentralRows(G, C), CentralRows(gm, um), phi)
+          /\ C08_Apply(tr, G, gm, UpwindRows(G, C, C), UpwindRows(gm, um, um), phi)
+\* C11: the reference means are means - between the two adjacent values, harmonic <= arithmetic for positive
+\* data, constants reproduced, upwind = one of the two adjacent values (or their average at a boundary / zero face)
+PosField(g) == [c \in AllCells(g) |-> R(1 + ((LinIdx(g, c) * 5) % 7))]
+DC11 == Done =>
+   LET phi == PosField(G)
+       one == [c \in AllCells(G) |-> R(3)]
+   IN  /\ C11_Between(G, phi, LinearMean(G, phi)) /\ C11_Between(G, phi, ArithmeticMean(G, phi))
+       /\ C11_Between(G, phi, HarmonicMean(G, phi)) /\ C11_Between(G, phi, UpwindMean(G, phi, C))
+       /\ \A id \in FaceIds(G) : RLe(HarmonicMean(G, phi)[id], ArithmeticMean(G, phi)[id])
+       /\ C11_Const(G, R(3), LinearMean(G, one)) /\ C11_Const(G, R(3), ArithmeticMean(G, one))
+       /\ C11_Const(G, R(3), HarmonicMean(G, one)) /\ C11_Const(G, R(3), UpwindMean(G, one, C))
 \* C17: rescaling lengths by L (faces of length-like axes) and the coefficient by L^2/T
 Scaled(g, L) == [g EXCEPT !.faces = [a \in 1..Len(g.faces) |->
                     IF IsAngular(g.cls, a) THEN g.faces[a]
